@@ -352,25 +352,31 @@ def parseCells : Nat → Bytes → Nat → M (List RawCell)
     let cs ← parseCells k rest refSize
     pure (c :: cs)
 
-/-- the checks of the back-patching loop for cell `i` out of `n` -/
-def checkRefs (i : Int) (n : Nat) : List Int → Outcome Unit
-  | [] => .ok ()
-  | r :: rs =>
+/-- the inner loop of the back-patching loop for cell `i` out of `n`: the two tests on every reference and the depth
+of the cell (`if depths[r]+1 > depths[i] { depths[i] = depths[r]+1 }`); `d` is the running value of `depths[i]` -/
+def checkRefs (depths : Array Nat) (i : Int) (n : Nat) : List Int → Nat → Outcome Nat
+  | [], d => .ok d
+  | r :: rs, d =>
     if r ≤ i then .err "topological order is broken"
     else if r ≥ n then .err "index out of range for boc deserialization"
-    else checkRefs i n rs
+    else match depths[r.toNat]? with
+      | none => .panic "index out of range"
+      | some dr => checkRefs depths i n rs (if dr + 1 > d then dr + 1 else d)
 
-/-- `for i := int(cellCount-1); i >= 0; i-- { c := refsArray[i]; … }`; `k` = i + 1 -/
-def backPatch (cells : Array RawCell) : Nat → Outcome Unit
-  | 0 => .ok ()
-  | k + 1 =>
+/-- `for i := int(cellCount-1); i >= 0; i-- { c := refsArray[i]; … }`; `k` = i + 1. Returns the depths. -/
+def backPatch (cells : Array RawCell) : Nat → Array Nat → Outcome (Array Nat)
+  | 0, depths => .ok depths
+  | k + 1, depths =>
     match cells[k]? with
     | none => .panic "index out of range"
     | some c =>
       if c.refs.length > 4 then .err "too long refs array"
       else do
-        checkRefs k cells.size c.refs
-        backPatch cells k
+        let d ← checkRefs depths k cells.size c.refs 0
+        if k < depths.size then
+          if d > maxDepth then .err "depth is too big"
+          else backPatch cells k (depths.set! k d)
+        else .panic "index out of range"
 
 def checkRoots (n : Nat) : List Nat → Outcome Unit
   | [] => .ok ()
@@ -388,7 +394,9 @@ def parseBocM (boc : Bytes) : M (Table × List Nat) := do
   let arr := cells.toArray
   -- i := int(header.cellCount - 1) on uint
   let start := toInt ((h.cellCount + two64 - 1) % two64)
-  lift (backPatch arr (start + 1).toNat)
+  -- depths := make([]int, len(cellsArray))
+  makeSlice szUint arr.size
+  let _ ← lift (backPatch arr (start + 1).toNat (Array.replicate arr.size 0))
   makeSlice szPtr h.rootList.length
   lift (checkRoots arr.size h.rootList)
   pure (arr.map RawCell.toRow, h.rootList)
